@@ -86,7 +86,7 @@ func c20Trusted(hostport string, initial string) bool {
 }
 
 var c20Statuses = [...]int{301, 302, 303, 307, 308}
-var c20Suffix = [...]string{"", "a.co", ".a.co", "xa.co"}
+var c20Suffix = [...]string{"", "a.co", ".a.co", "xa.co", ".a"}
 var c20Port = [...]string{"", ":81"}
 var c20Prefix = [...]string{"http://", "https://", "//", "HTTP://u:p@"}
 
@@ -149,4 +149,39 @@ func vhC20Redirects() {
 		}
 	}
 	vAssert("303-and-post-rewrites", okMethod)
+}
+
+// vhC20Chain: chains of two or three redirects over a menu of hosts built
+// around the initial one (subdomains, look-alikes, prefixes and suffixes of
+// earlier hosts, longer and shorter names), with a fresh Request or one that
+// has been used before for a long host name: whether a host is trusted is
+// decided against the *initial* host at every hop.
+var c20ChainHosts = [...]string{"a.co", "xy.a.co", "xy.a", "a.c", "co", "xa.co", "z.xy.a.co", "xy.a.co.evil.io", "A.CO"}
+
+func vhC20Chain() {
+	const initial = "a.co"
+	hops := 2 + vChoose("thirdHop", 2)
+	d := &c20Doer{}
+	for i := 0; i < hops; i++ {
+		d.statuses = append(d.statuses, [...]int{302, 307}[vChoose("status", 2)])
+		d.locations = append(d.locations, []byte("http://"+c20ChainHosts[vChoose("host", len(c20ChainHosts))]+"/p"))
+	}
+	var req Request
+	var resp Response
+	if vBool("requestUsedBefore") {
+		req.SetRequestURI("http://a-rather-long-host-name.example.org/earlier")
+		req.URI().Host()
+		req.Reset()
+	}
+	req.Header.Set(HeaderAuthorization, "Bearer t")
+	req.Header.Set(HeaderCookie, "sid=1")
+	_, _, err := doRequestFollowRedirects(&req, &resp, "http://"+initial+"/start", 3, d)
+	leak := false
+	for _, h := range d.hops {
+		if (h.hasAuth || h.hasCk) && !c20Trusted(h.host, initial) {
+			leak = true
+		}
+	}
+	vAssert("no-credentials-to-untrusted-host", !leak)
+	vAssert("chain-followed", err == nil && len(d.hops) == hops+1)
 }
